@@ -31,10 +31,10 @@ Definition tot (W : nat) (d : mat) (f : nat) : Qc := sumn W (fun j => get d f j)
 (* Overproduction module *)
 Definition alpha_rel (a d x a' : Qc) : Prop :=
   let z := if Qceqb d 0 then 0 else (d - x) / d in
-  (0 < z -> a' = qmax 1 (a + (a_max P - a) * z * a_rate P)) /\
-  (z = 0 -> a' = qmax 1 (a + (a_base P - a) * a_rate P)) /\
-  (z < 0 -> a' = qmax 1 (a + (a_base P - a) * a_rate P) \/
-            a' = qmax 1 (a + (a_max P - a) * z * a_rate P)).
+  (0 < z -> a' = qmin (a_max P) (qmax 1 (a + (a_max P - a) * z * a_rate P))) /\
+  (z = 0 -> a' = qmin (a_max P) (qmax 1 (a + (a_base P - a) * a_rate P))) /\
+  (z < 0 -> a' = qmin (a_max P) (qmax 1 (a + (a_base P - a) * a_rate P)) \/
+            a' = qmin (a_max P) (qmax 1 (a + (a_max P - a) * z * a_rate P))).
 
 (* is input p a real, finite-inventory input of industry f ? *)
 Definition real_input (p f : nat) : Prop := getb (mask P) p f = true /\ isinf P p = false.
